@@ -58,6 +58,7 @@ class State:
         self.ghost_names: set = set()
         self.in_binder = 0
         self.bound: dict = {}
+        self.calllog: list = []  # ghost: calls made through contracts on this path: (short name, [argument values])
         self.objattrs: dict = {}  # per-path attribute stores of opaque objects: id(VObj) -> {attr: value}
 
     def clone(self) -> "State":
@@ -75,6 +76,7 @@ class State:
         s.in_binder = self.in_binder
         s.bound = dict(self.bound)
         s.objattrs = {k: dict(v) for k, v in self.objattrs.items()}
+        s.calllog = list(self.calllog)
         return s
 
     def assume(self, *conds):
@@ -1846,6 +1848,8 @@ class Exec:
 
     def apply_contract(self, c: Contract, args, kwargs, st: State) -> V:
         b = self.bind_params(c, args, kwargs, st)
+        if not getattr(self, "spec_mode", False):
+            st.calllog.append((c.qualname.split(".")[-1], list(b.values())))
         if c.trusted:
             self.assumed.add(c.qualname)
         # --- requires (callee's precondition is the caller's obligation)
